@@ -42,7 +42,8 @@ static scpi_result_t c01_misc(scpi_t * context) {
 static scpi_result_t c01_pusherr(scpi_t * context) {
     const char * p; size_t l; int32_t code = 5;
     SCPI_ParamInt32(context, &code, FALSE);
-    if (SCPI_ParamCharacters(context, &p, &l, FALSE)) SCPI_ErrorPushEx(context, (int16_t) code, (char *) p, l); else SCPI_ErrorPush(context, (int16_t) code);
+    /* length 0 would mean 'NUL-terminated text', which a pointer into the input buffer is not */
+    if (SCPI_ParamCharacters(context, &p, &l, FALSE) && l > 0) SCPI_ErrorPushEx(context, (int16_t) code, (char *) p, l); else SCPI_ErrorPush(context, (int16_t) code);
     return SCPI_RES_OK;
 }
 
